@@ -61,9 +61,10 @@ class Hooks:
             if isinstance(bag, sched.Bag):
                 lo_ok = bag.lo is not None and bag.lo[0] == "ge"
                 hi_ok = bag.hi is not None and bag.hi[0] == "le"
-                c.prove("prologue.M.clipped_to_span", z3.And(z3.BoolVal(lo_ok and hi_ok),
-                                                             bag.lo[1].v == w.Tt(z3.IntVal(0)) if lo_ok else z3.BoolVal(False),
-                                                             bag.hi[1].v == w.Tt(w.N - 1) if hi_ok else z3.BoolVal(False)),
+                c.prove("prologue.M.clipped_to_span", z3.Or(z3.BoolVal(not bag.sensors),        # no sensor, no stamp: nothing to clip
+                                                            z3.And(z3.BoolVal(lo_ok and hi_ok),
+                                                                   bag.lo[1].v == w.Tt(z3.IntVal(0)) if lo_ok else z3.BoolVal(False),
+                                                                   bag.hi[1].v == w.Tt(w.N - 1) if hi_ok else z3.BoolVal(False))),
                         "clip keeps times[0] <= tau <= times[-1]")
                 if not bag.sensors:
                     c.assume(w.K == 0, "no sensors")
@@ -206,6 +207,9 @@ def scenario(py, code, mode, with_inc, equal_index=True):
         status = "obligation-failed"
     except ValueError as exc:
         status = "ValueError"
+    if sensors:
+        c.prove("frame.measurement_objects_not_written", z3.BoolVal(not any(s_.writes for s_ in sensors)),
+                "no attribute of the caller's Measurement objects is stored to (written: %s)" % sorted({k for s_ in sensors for k in s_.writes}))
     if status == "exit":
         kw = cap.kw or {}
         c.prove("epilogue.result_fields", z3.BoolVal(sorted(kw) == sorted(["trajectory", "trajectory_sd", "gyro", "gyro_sd", "accel", "accel_sd", "innovations"])),
